@@ -693,6 +693,12 @@ class assert_not_output_contains(RuntimePrintingAssertionFeedback):
         return str(text.value) in self.get_output(execution)
 
 
+def _as_pattern(pattern):
+    """ A compiled pattern is used as it is (str() of it is its repr); anything else as text. """
+    pattern = unwrap_value(pattern)
+    return pattern if isinstance(pattern, re.Pattern) else str(pattern)
+
+
 class assert_output_regex(RuntimePrintingAssertionFeedback):
     """
     Determine if the ``execution`` output matches the given regex, similar to assert_output and assert_regex.
@@ -707,7 +713,7 @@ class assert_output_regex(RuntimePrintingAssertionFeedback):
 
     def condition(self, execution, text, exact_strings):
         """ Tests if the regex does not match the text """
-        return errors(execution) or re.search(str(text.value), self.get_output(execution)) is None
+        return errors(execution) or re.search(_as_pattern(text.value), self.get_output(execution)) is None
 
 
 class assert_not_output_regex(RuntimePrintingAssertionFeedback):
@@ -725,7 +731,7 @@ class assert_not_output_regex(RuntimePrintingAssertionFeedback):
 
     def condition(self, execution, text, exact_strings):
         """ Tests if the regex does not match the text """
-        return re.search(str(text.value), self.get_output(execution)) is not None
+        return re.search(_as_pattern(text.value), self.get_output(execution)) is not None
 
 
 class assert_has_attr(RuntimeAssertionFeedback):
